@@ -153,7 +153,7 @@ impl PointCloud {
             }
             let ns = xml::prefix(&n);
             let tag = n.tag_name().name();
-            let root_ns = n.document().root_element().tag_name().namespace();
+            let root_ns = xml::root_namespace(&n);
             let name = if n.tag_name().namespace() == root_ns {
                 RecordName::from_namespace_and_tag_name(ns, tag)?
             } else {
